@@ -2,6 +2,7 @@ package g_auth
 
 import (
 	"fmt"
+	"net/http"
 	"strings"
 	"testing"
 
@@ -33,6 +34,38 @@ type c28Case struct {
 	// for a parseable URL, so this includes characters a header value cannot
 	// carry unescaped; if validation refuses the resource the case ends there.
 	Query string `json:"query,omitempty"`
+	// Reject: how the authenticator turns the caller away. nil = the repository's
+	// own idiom, a direct ValueError RpcError with a plain message. The value the
+	// server emits belongs to one particular 401, and a 401 has a second input
+	// besides the metadata: the rejection's reason and free-text detail.
+	Reject *c28Reject `json:"reject,omitempty"`
+	Route  string     `json:"route,omitempty"` // "" (= unary on an unknown method) | unary | describe | init | exchange
+}
+
+type c28Reject struct {
+	Kind   string `json:"kind"`             // rpc-value | rpc-permission | failure | wrapped-failure | chain
+	Reason string `json:"reason,omitempty"` // failure kinds: a closed-set reason or ""
+	Detail string `json:"detail,omitempty"`
+}
+
+func (r *c28Reject) authenticator() vgirpc.AuthenticateFunc {
+	mk := func(err error) vgirpc.AuthenticateFunc {
+		return func(*http.Request) (*vgirpc.AuthContext, error) { return nil, err }
+	}
+	switch r.Kind {
+	case "rpc-value":
+		return mk(&vgirpc.RpcError{Type: "ValueError", Message: r.Detail})
+	case "rpc-permission":
+		return mk(&vgirpc.RpcError{Type: "PermissionError", Message: r.Detail})
+	case "failure":
+		return mk(vgirpc.NewAuthFailure(vgirpc.AuthReason(r.Reason), r.Detail))
+	case "wrapped-failure":
+		return mk(fmt.Errorf("verify %q: %w", r.Detail, vgirpc.NewAuthFailure(vgirpc.AuthReason(r.Reason), r.Detail)))
+	case "chain":
+		// nobody accepts: the chain's own rejection, after members whose texts are discarded
+		return vgirpc.ChainAuthenticate(mk(&vgirpc.RpcError{Type: "ValueError", Message: r.Detail}), rejectValueError)
+	}
+	panic("c28Reject: " + r.Kind)
 }
 
 func (c c28Case) resource() string {
@@ -60,6 +93,53 @@ func genC28Value(t *rapid.T, label string) string {
 	default:
 		return rapid.StringOfN(rapid.RuneFrom([]rune(c28ValueAlphabet)), 1, 14, -1).Draw(t, label)
 	}
+}
+
+// fragments a rejection detail is assembled from: what error texts built with
+// %q, %v of a struct, a quoted upstream message or an echoed header look like,
+// i.e. every character that means something inside an auth-param list.
+var c28DetailFrags = []string{
+	`"`, `"`, `\`, `\"`, `,`, `, `, `=`, `="`, `",`, ` `, `;`, `'`, "\t", "\n", "\r\n", "\x00", "\x7f", "é", "日本", "%22", "%2C",
+	"Bearer ", "Basic realm=", "error=", "error_description=", "scope=", "realm=",
+}
+
+func genC28Detail(t *rapid.T) string {
+	n := rapid.IntRange(0, 8).Draw(t, "ndetail")
+	var b strings.Builder
+	for i := 0; i < n; i++ {
+		switch k := rapid.IntRange(0, 9).Draw(t, "dfrag"); {
+		case k < 5:
+			b.WriteString(c28DetailFrags[rapid.IntRange(0, len(c28DetailFrags)-1).Draw(t, "frag")])
+		case k < 7:
+			// a parameter of the header's own vocabulary, spelt as in the header
+			name := c28ParamNames[rapid.IntRange(0, len(c28ParamNames)-1).Draw(t, "dparam")]
+			b.WriteString(name + []string{"", "=", `="`, `="evil"`, `="https://evil.example/.well-known/oauth-protected-resource"`}[rapid.IntRange(0, 4).Draw(t, "dparamform")])
+		default:
+			b.WriteString(rapid.StringOfN(rapid.RuneFrom([]rune(c28ValueAlphabet+" ")), 1, 10, -1).Draw(t, "dword"))
+		}
+	}
+	return b.String()
+}
+
+func genC28Reject(t *rapid.T) *c28Reject {
+	r := &c28Reject{Detail: genC28Detail(t)}
+	switch k := rapid.IntRange(0, 9).Draw(t, "rejectkind"); {
+	case k < 2:
+		r.Kind = "rpc-value"
+	case k < 4:
+		r.Kind = "rpc-permission"
+	case k < 8:
+		r.Kind = "failure"
+	case k < 9:
+		r.Kind = "wrapped-failure"
+	default:
+		r.Kind = "chain"
+	}
+	if r.Kind == "failure" || r.Kind == "wrapped-failure" {
+		reasons := append(append([]string{}, closedReasonList...), "")
+		r.Reason = reasons[rapid.IntRange(0, len(reasons)-1).Draw(t, "reason")]
+	}
+	return r
 }
 
 func genC28(t *rapid.T) c28Case {
@@ -109,7 +189,33 @@ func genC28(t *rapid.T) c28Case {
 	c.DevID = genC28Value(t, "dev_id")
 	c.DevSecret = genC28Value(t, "dev_secret")
 	c.UseIDToken = rapid.Bool().Draw(t, "use_id_token")
+	if rapid.Bool().Draw(t, "reject?") {
+		c.Reject = genC28Reject(t)
+		c.Route = []string{"unary", "unary", "describe", "init", "exchange"}[rapid.IntRange(0, 4).Draw(t, "route")]
+	}
 	return c
+}
+
+// c28Fetch configures a server with the metadata and the rejection and returns
+// the WWW-Authenticate value of the 401 it answers with.
+func c28Fetch(meta *vgirpc.OAuthResourceMetadata, rej *c28Reject, route string) (hdr string, resp lib.HTTPResp, err error) {
+	srv := vgirpc.NewServer()
+	path, body := "/any_method", unaryBody("any_method", "c28")
+	if route != "" {
+		lib.RegisterScripted(srv)
+		path, body = c23Request(route)
+	}
+	hs := newHTTP(srv)
+	if rej == nil {
+		hs.SetAuthenticate(rejectValueError)
+	} else {
+		hs.SetAuthenticate(rej.authenticator())
+	}
+	if err := hs.SetOAuthResourceMetadata(meta); err != nil {
+		return "", resp, err
+	}
+	resp = lib.PostArrow(hs, path, body, nil)
+	return resp.Header.Get("WWW-Authenticate"), resp, nil
 }
 
 func runC28(c c28Case) (out lib.Outcome) {
@@ -149,12 +255,37 @@ func runC28(c c28Case) (out lib.Outcome) {
 		DeviceCodeClientSecret: c.DevSecret,
 		UseIDTokenAsBearer:     c.UseIDToken,
 	}
-	hs := newHTTP(vgirpc.NewServer())
-	hs.SetAuthenticate(rejectValueError)
 	if c.Query != "" {
 		out.Label("resource-with-query")
 	}
-	if err := hs.SetOAuthResourceMetadata(meta); err != nil {
+	if c.Reject == nil {
+		out.Label("reject:plain-valueerror")
+	} else {
+		d := c.Reject.Detail
+		out.Label("reject:"+c.Reject.Kind, "route:"+c.Route)
+		if c.Reject.Reason != "" {
+			out.Label("reject-reason:" + c.Reject.Reason)
+		}
+		for _, f := range []struct{ label, chars string }{{"quote", `"`}, {"backslash", `\`}, {"comma", ","}, {"equals", "="}, {"control", "\t\n\r\x00\x7f"}} {
+			if strings.ContainsAny(d, f.chars) {
+				out.Label("detail:" + f.label)
+			}
+		}
+		if d == "" {
+			out.Label("detail:empty")
+		}
+		for _, name := range c28ParamNames {
+			if strings.Contains(d, name) {
+				out.Label("detail:param-name")
+				break
+			}
+		}
+		if strings.Contains(d, `\"`) {
+			out.Label("detail:backslash-quote")
+		}
+	}
+	hdr, resp, err := c28Fetch(meta, c.Reject, c.Route)
+	if err != nil {
 		if c.Query != "" {
 			// not "allowed by validation": nothing is advertised
 			out.Label("resource-refused-by-validation")
@@ -164,7 +295,6 @@ func runC28(c c28Case) (out lib.Outcome) {
 		out.Violate("C28/harness-metadata-refused", "generated metadata was refused by validation: %v", err)
 		return
 	}
-	resp := lib.PostArrow(hs, "/any_method", unaryBody("any_method", "c28"), nil)
 	if resp.Panic != "" {
 		out.Violate("C28/panic", "panic: %s", lib.Short(resp.Panic, 300))
 		return
@@ -173,7 +303,6 @@ func runC28(c c28Case) (out lib.Outcome) {
 		out.Violate("C28/no-401", "rejecting authenticator produced status %d, not 401", resp.Status)
 		return
 	}
-	hdr := resp.Header.Get("WWW-Authenticate")
 	if hdr == "" {
 		out.Violate("C28/no-header", "401 carries no WWW-Authenticate although OAuth metadata is configured")
 		return
@@ -194,6 +323,10 @@ func runC28(c c28Case) (out lib.Outcome) {
 		}
 	}
 
+	rejDesc := ""
+	if c.Reject != nil {
+		rejDesc = fmt.Sprintf("; rejection %s reason=%q detail=%q on route %s", c.Reject.Kind, c.Reject.Reason, c.Reject.Detail, c.Route)
+	}
 	type field struct{ name, want, got, longer, longerWant string }
 	fields := []field{
 		{"client_id", c.ClientID, vgirpc.ParseClientID(hdr), "device_code_client_id", c.DevID},
@@ -201,7 +334,32 @@ func runC28(c c28Case) (out lib.Outcome) {
 		{"device_code_client_id", c.DevID, vgirpc.ParseDeviceCodeClientID(hdr), "", ""},
 		{"device_code_client_secret", c.DevSecret, vgirpc.ParseDeviceCodeClientSecret(hdr), "", ""},
 	}
+	// the same metadata behind the plain rejection, fetched only to name the cause of a mismatch
+	var plainMemo map[string]bool
+	plain := func() map[string]bool {
+		if plainMemo != nil {
+			return plainMemo
+		}
+		plainOK := map[string]bool{}
+		plainMemo = plainOK
+		if c.Reject == nil {
+			return plainOK
+		}
+		if ph, _, err := c28Fetch(meta, nil, ""); err == nil && ph != "" {
+			plainOK["client_id"] = vgirpc.ParseClientID(ph) == c.ClientID
+			plainOK["client_secret"] = vgirpc.ParseClientSecret(ph) == c.ClientSecret
+			plainOK["device_code_client_id"] = vgirpc.ParseDeviceCodeClientID(ph) == c.DevID
+			plainOK["device_code_client_secret"] = vgirpc.ParseDeviceCodeClientSecret(ph) == c.DevSecret
+			plainOK["use_id_token_as_bearer"] = vgirpc.ParseUseIDTokenAsBearer(ph) == c.UseIDToken
+			plainOK["resource_metadata"] = has(wantURLs, vgirpc.ParseResourceMetadataURL(ph))
+		}
+		return plainOK
+	}
 	blame := func(name string) string {
+		if plain()[name] {
+			// recovered from the 401 of a plain rejection, lost from this one
+			return lib.Keyf("C28", "rejection-changes-what-is-recovered", name)
+		}
 		if c.HostilePath {
 			return "C28/param-name-matched-inside-quoted-url"
 		}
@@ -212,16 +370,16 @@ func runC28(c c28Case) (out lib.Outcome) {
 			continue
 		}
 		key := blame(f.name)
-		if !c.HostilePath && f.want == "" && f.longer != "" && f.longerWant != "" && f.got == f.longerWant {
+		if !plain()[f.name] && !c.HostilePath && f.want == "" && f.longer != "" && f.longerWant != "" && f.got == f.longerWant {
 			key = "C28/param-name-matched-inside-longer-name"
 		}
-		out.Violate(key, "Parse of %s returned %q, configured value is %q (absent = empty); header: %s", f.name, f.got, f.want, hdr)
+		out.Violate(key, "Parse of %s returned %q, configured value is %q (absent = empty); header: %s%s", f.name, f.got, f.want, hdr, rejDesc)
 	}
 	if got := vgirpc.ParseUseIDTokenAsBearer(hdr); got != c.UseIDToken {
-		out.Violate(blame("use_id_token_as_bearer"), "ParseUseIDTokenAsBearer returned %v, configured %v; header: %s", got, c.UseIDToken, hdr)
+		out.Violate(blame("use_id_token_as_bearer"), "ParseUseIDTokenAsBearer returned %v, configured %v; header: %s%s", got, c.UseIDToken, hdr, rejDesc)
 	}
 	if got := vgirpc.ParseResourceMetadataURL(hdr); !has(wantURLs, got) {
-		out.Violate(blame("resource_metadata"), "ParseResourceMetadataURL returned %q, expected %q for resource %q; header: %s", got, wantURLs[0], c.resource(), hdr)
+		out.Violate(blame("resource_metadata"), "ParseResourceMetadataURL returned %q, expected %q for resource %q; header: %s%s", got, wantURLs[0], c.resource(), hdr, rejDesc)
 	}
 	return
 }
@@ -229,14 +387,20 @@ func runC28(c c28Case) (out lib.Outcome) {
 var propC28 = lib.Prop[c28Case]{
 	ID: "C28",
 	Rule: "OAuth resource metadata with generated resource URLs (http/https, names, IPv4/IPv6 literals, ports, 0-3 path segments incl. parameter-name words, optional trailing slash, 1/8 with a tail spelling `<param>=`; a quarter with a query string, some of them carrying double quotes, backslashes or blanks — if validation accepts such a resource the header has to carry it recoverably), each of the four optional string fields independently absent (40%), a parameter-name-like word (20%) or a random value from the validated alphabet, id-token flag on/off; " +
+		"the 401 is provoked by the plain ValueError rejection (half) or by a generated rejection (direct ValueError / PermissionError RpcError, AuthFailure of every closed-set reason or none, a %w-wrapped AuthFailure, an exhausted chain) whose free-text detail is 0-8 fragments of double quotes, backslashes, \\\", commas, '=', blanks, control characters, non-ASCII, challenge vocabulary (Bearer, realm=, error=, scope=) and the header's own parameter names spelt as `name=\"value\"`, on the unary, __describe__, /init or /exchange route; " +
 		"header obtained from a real 401; the six Parse* functions must return exactly the configured values (absent = empty/false) and the URL assembled from the generated components. Non-trivial: a proper, non-empty subset of the five optional fields is set.",
-	Gen:          genC28,
-	Run:          runC28,
-	Essential:    []string{"proper-subset", "devid-without-clientid", "devsecret-without-clientsecret", "optional-set:0", "optional-set:5", "trailing-slash", "hostile-path", "resource-with-query"},
-	EssentialMin: 500,
+	Gen: genC28,
+	Run: runC28,
+	Essential: []string{"proper-subset", "devid-without-clientid", "devsecret-without-clientsecret", "optional-set:0", "optional-set:5", "trailing-slash", "hostile-path", "resource-with-query",
+		"reject:plain-valueerror", "reject:rpc-value", "reject:rpc-permission", "reject:failure", "reject:wrapped-failure", "reject:chain",
+		"reject-reason:missing_credential", "reject-reason:invalid_credential", "reject-reason:expired_credential", "reject-reason:insufficient_scope", "reject-reason:proxy_required", "reject-reason:unauthorized",
+		"detail:quote", "detail:backslash", "detail:backslash-quote", "detail:comma", "detail:equals", "detail:control", "detail:param-name", "detail:empty",
+		"route:unary", "route:describe", "route:init", "route:exchange"},
+	EssentialMin: 1000,
 	Assumptions: []string{
 		"for a resource whose non-root path ends in '/', both keeping and dropping that slash in the well-known URL are accepted (the statement is silent)",
 		"resource URLs contain only RFC 3986 unreserved characters plus ',' and '=' in paths, so no percent-encoding question arises",
+		"'the WWW-Authenticate value the server emits' is the value of any 401 the configured server answers with, whatever reason and detail the authenticator rejected with and on whichever route",
 	},
 }
 
